@@ -26,6 +26,11 @@ func (in *Interp) bigSet(p Ptr, t *smt.Term) Ptr {
 	if p.O == nil {
 		in.panicf("nil *big.Int")
 	}
+	if p.O.Frozen && in.MonitorOn {
+		// an in-place operation on a *big.Int that existed before the run
+		old := in.bigGet(p)
+		in.sharedWrite("big.Int updated in place", old, t)
+	}
 	in.bigs[p.O] = t
 	return p
 }
